@@ -161,6 +161,211 @@ func countedLoop(l *natLoop, idx ssa.Value) (bound ssa.Value, regular map[*ssa.B
 	return bound, regular, ""
 }
 
+// frameCountSource: v is FrameCount() of some PixelData value, directly or as the result of a
+// helper that returns exactly its parameter's FrameCount() on every successful return
+// (info, n, err := openSource(src, dst, ...)). Returns that PixelData value in the caller's terms.
+func frameCountSource(v ssa.Value, depth int) (ssa.Value, bool) {
+	if depth > 2 {
+		return nil, false
+	}
+	var call *ssa.Call
+	idx := 0
+	switch x := v.(type) {
+	case *ssa.Call:
+		call = x
+	case *ssa.Extract:
+		c, ok := x.Tuple.(*ssa.Call)
+		if !ok {
+			return nil, false
+		}
+		call, idx = c, x.Index
+	default:
+		return nil, false
+	}
+	cc := call.Common()
+	if cc.IsInvoke() {
+		if cc.Method.Name() == "FrameCount" && isDicomInterface(cc.Value.Type(), "PixelData") {
+			return cc.Value, true
+		}
+		return nil, false
+	}
+	sc := cc.StaticCallee()
+	if sc == nil || sc.Blocks == nil || !load.InScope(sc) || len(cc.Args) != len(sc.Params) {
+		return nil, false
+	}
+	ei := errorResultIndex(sc)
+	pi := -1
+	n := 0
+	for _, b := range sc.Blocks {
+		if len(b.Instrs) == 0 {
+			continue
+		}
+		ret, ok := b.Instrs[len(b.Instrs)-1].(*ssa.Return)
+		if !ok || idx >= len(ret.Results) {
+			continue
+		}
+		if ei >= 0 && !isNilConst(ret.Results[ei]) {
+			continue
+		}
+		n++
+		pd, ok := frameCountSource(ret.Results[idx], depth+1)
+		if !ok {
+			return nil, false
+		}
+		k := paramIndex(sc, pd)
+		if k < 0 || (pi >= 0 && k != pi) {
+			return nil, false
+		}
+		pi = k
+	}
+	if n == 0 || pi < 0 {
+		return nil, false
+	}
+	return cc.Args[pi], true
+}
+
+// callbackAddsFrame: function value fv (a closure or named function passed as the per-frame
+// callback of a frame-loop helper) appends exactly one frame, computed from its parameter dataIdx,
+// to a PixelData other than src on every path that returns a nil error.
+func callbackAddsFrame(fv ssa.Value, dataIdx int, src ssa.Value, mark func(ssa.CallInstruction)) (bool, string) {
+	var fn *ssa.Function
+	var bindings []ssa.Value
+	switch x := fv.(type) {
+	case *ssa.MakeClosure:
+		fn, _ = x.Fn.(*ssa.Function)
+		bindings = x.Bindings
+	case *ssa.Function:
+		fn = x
+	case *ssa.ChangeType:
+		return callbackAddsFrame(x.X, dataIdx, src, mark)
+	}
+	if fn == nil || fn.Blocks == nil || dataIdx >= len(fn.Params) {
+		return false, "the per-frame callback is not a function literal or named function whose body can be examined"
+	}
+	var adds []ssa.CallInstruction
+	for _, b := range fn.Blocks {
+		for _, ins := range b.Instrs {
+			if call, m := pixelDataCall(ins); call != nil && m == "AddFrame" {
+				adds = append(adds, call)
+			}
+		}
+	}
+	if len(adds) != 1 {
+		return false, fmt.Sprintf("the per-frame callback %s contains %d AddFrame calls (exactly one is required per frame)", load.FuncName(fn), len(adds))
+	}
+	add := adds[0]
+	if innermostLoopOf(naturalLoops(fn), add.Block()) != nil {
+		return false, "AddFrame sits in a loop inside the per-frame callback: more than one output frame per input frame is possible"
+	}
+	if !sliceWithAllocCalls(add.Common().Args[0])[fn.Params[dataIdx]] {
+		return false, "the frame the callback passes to AddFrame is not data-dependent on the frame it was given"
+	}
+	if av := add.Value(); av == nil || av.Referrers() == nil || len(*av.Referrers()) == 0 {
+		return false, "the error returned by AddFrame is discarded in the per-frame callback"
+	}
+	ei := errorResultIndex(fn)
+	for _, b := range fn.Blocks {
+		if len(b.Instrs) == 0 {
+			continue
+		}
+		ret, ok := b.Instrs[len(b.Instrs)-1].(*ssa.Return)
+		if !ok {
+			continue
+		}
+		if (ei < 0 || isNilConst(ret.Results[ei])) && !instrDominates(add, ret) {
+			return false, "the per-frame callback can return a nil error without having called AddFrame (a frame is skipped silently)"
+		}
+	}
+	// destination must not be the source
+	dst := add.Common().Value
+	if fvr, ok := dst.(*ssa.FreeVar); ok {
+		for i, f := range fn.FreeVars {
+			if f == fvr && i < len(bindings) {
+				dst = bindings[i]
+			}
+		}
+	}
+	if u, ok := dst.(*ssa.UnOp); ok {
+		// captured by reference: *freevar
+		if fvr, ok := u.X.(*ssa.FreeVar); ok {
+			for i, f := range fn.FreeVars {
+				if f == fvr && i < len(bindings) {
+					if al, ok := bindings[i].(*ssa.Alloc); ok && al.Referrers() != nil {
+						for _, r := range *al.Referrers() {
+							if st, ok := r.(*ssa.Store); ok && st.Addr == ssa.Value(al) {
+								dst = st.Val
+							}
+						}
+					}
+				}
+			}
+		}
+	}
+	if src != nil && sameBase(dst, src) {
+		return false, "the per-frame callback appends to the PixelData the frames are read from"
+	}
+	mark(add)
+	return true, ""
+}
+
+// callbackAdd looks in loop l of fn for a call of a function-typed parameter that receives the
+// frame fetched by get, and checks every closure the callers pass for it.
+func callbackAdd(fn *ssa.Function, l *natLoop, get frameGet, callersOf func(*ssa.Function) []ssa.CallInstruction, mark func(ssa.CallInstruction)) (frameAdd, string, bool) {
+	var frame ssa.Value
+	if get.val != nil && get.val.Referrers() != nil {
+		for _, r := range *get.val.Referrers() {
+			if ex, ok := r.(*ssa.Extract); ok && ex.Index == 0 {
+				frame = ex
+			}
+		}
+	}
+	if frame == nil {
+		return frameAdd{}, "", false
+	}
+	for b := range l.Blocks {
+		for _, ins := range b.Instrs {
+			call, ok := ins.(*ssa.Call)
+			if !ok {
+				continue
+			}
+			prm, ok := call.Call.Value.(*ssa.Parameter)
+			if !ok {
+				continue
+			}
+			dataIdx := -1
+			for i, a := range call.Call.Args {
+				if a == frame {
+					dataIdx = i
+				}
+			}
+			pi := paramIndex(fn, prm)
+			srcIdx := paramIndex(fn, get.pd)
+			if dataIdx < 0 || pi < 0 {
+				continue
+			}
+			sites := callersOf(fn)
+			if len(sites) == 0 {
+				return frameAdd{}, "the frame loop hands frames to a callback, but no caller of " + load.FuncName(fn) + " is in the analysed code", true
+			}
+			for _, cs := range sites {
+				args := cs.Common().Args
+				if pi >= len(args) {
+					continue
+				}
+				var src ssa.Value
+				if srcIdx >= 0 && srcIdx < len(args) {
+					src = args[srcIdx]
+				}
+				if ok, why := callbackAddsFrame(args[pi], dataIdx, src, mark); !ok {
+					return frameAdd{}, why + " (callback passed by " + load.FuncName(cs.Parent()) + ")", true
+				}
+			}
+			return frameAdd{site: call, fn: fn, pd: nil, data: frame, errVal: call, via: "callback " + prm.Name()}, "", true
+		}
+	}
+	return frameAdd{}, "", false
+}
+
 // orderFramesRule implements ORDER-FRAMES (DESIGN C10 rule 1).
 func (c *Ctx) orderFramesRule(e *Eff) int {
 	nLoops := 0
@@ -330,6 +535,10 @@ func (c *Ctx) orderFramesRule(e *Eff) int {
 	}
 	sort.Slice(fns, func(i, j int) bool { return fns[i].String() < fns[j].String() })
 	loopFns := map[*ssa.Function]bool{}
+	viaCallback := map[ssa.CallInstruction]bool{}
+	// functions holding a frame loop first, so that callbacks are validated before their own
+	// AddFrame calls are looked at
+	sort.SliceStable(fns, func(i, j int) bool { return len(gets[fns[i]]) > 0 && len(gets[fns[j]]) == 0 })
 	for _, fn := range fns {
 		loops := naturalLoops(fn)
 		usedAdds := map[ssa.CallInstruction]bool{}
@@ -356,7 +565,13 @@ func (c *Ctx) orderFramesRule(e *Eff) int {
 				continue
 			}
 			boundOK, arith := false, false
+			if pd, ok := frameCountSource(bound, 0); ok && sameBase(pd, get.pd) {
+				boundOK = true
+			}
 			for v := range backwardSlice(bound, 200) {
+				if boundOK {
+					break
+				}
 				if call, ok := v.(*ssa.Call); ok {
 					if cc := call.Common(); cc.IsInvoke() && cc.Method.Name() == "FrameCount" && sameBase(cc.Value, get.pd) {
 						boundOK = true
@@ -375,6 +590,17 @@ func (c *Ctx) orderFramesRule(e *Eff) int {
 			for _, ad := range adds[fn] {
 				if l.Blocks[ad.site.Block()] {
 					inLoop = append(inLoop, ad)
+				}
+			}
+			if len(inLoop) == 0 && get.via == "" {
+				// the loop hands each frame to a callback parameter (forEachFrame(src, visit)): the
+				// callback stands for AddFrame when every closure passed for it adds exactly one frame
+				if cb, why, found := callbackAdd(fn, l, get, callersOf, func(ci ssa.CallInstruction) { viaCallback[ci] = true }); found {
+					if why != "" {
+						fail(why)
+						continue
+					}
+					inLoop = append(inLoop, cb)
 				}
 			}
 			if len(inLoop) != 1 {
@@ -434,7 +660,7 @@ func (c *Ctx) orderFramesRule(e *Eff) int {
 			c.add("ORDER-FRAMES", fn, construct, report.Discharged, c.P.Pos(get.site.Pos()), "counted loop 0..FrameCount()-1, one dominating AddFrame per cycle fed by the iteration's frame, early exits return errors")
 		}
 		for _, ad := range adds[fn] {
-			if !usedAdds[ad.site] {
+			if !usedAdds[ad.site] && !viaCallback[ad.site] {
 				c.add("ORDER-FRAMES", fn, "AddFrame outside a frame loop", report.Violated, c.P.Pos(ad.site.Pos()), "AddFrame is not paired with a GetFrame of the same iteration")
 			}
 		}
